@@ -112,10 +112,10 @@ def make_vocab_lemma(shard, nshards):
 def make_shape_lemma(ck):
     def lem(rep: int, rk: int, mrt: int, fk: int) -> bool:
         """
-        pre: 0 <= rep < 5 and 0 <= rk < 6 and 0 <= mrt < 3 and 0 <= fk < 9
+        pre: 0 <= rep < 5 and 0 <= rk < 7 and 0 <= mrt < 3 and 0 <= fk < 9
         post: _
         """
-        rep, rk, mrt, fk = pin(rep, 0, len(REPS) - 1), pin(rk, 0, 5), pin(mrt, 0, 2), pin(fk, 0, 8)
+        rep, rk, mrt, fk = pin(rep, 0, len(REPS) - 1), pin(rk, 0, 6), pin(mrt, 0, 2), pin(fk, 0, 8)
         with native():
             module, name = REPS[rep]
             if ck in (5, 6) and is_builtin_family(module):
@@ -234,7 +234,7 @@ def lemmas(tier):
     for ck in range(len(CALL)):
         L.append(Lemma("shape_" + CALL[ck].replace("/", "_").replace("-", "_"), make_shape_lemma(ck), timeout=300 if q else 1500,
                        dry=[{"rep": 0, "rk": 0, "mrt": 0, "fk": 1}, {"rep": 1, "rk": 1, "mrt": 1, "fk": 2}],
-                       doc={"F": ["5 representative globals %s" % (REPS,), "resolve (6): %s" % RESOLVE, "memo round trip (3)", "call=%s" % CALL[ck], "fate (9): %s" % FATE],
+                       doc={"F": ["5 representative globals %s" % (REPS,), "resolve (7): %s" % RESOLVE, "memo round trip (3)", "call=%s" % CALL[ck], "fate (9): %s" % FATE],
                             "bound": "single gadget"}))
     QUICK[0] = q
     for rep in range(len(REPS)):
